@@ -56,6 +56,59 @@ func main() {
 	fmt.Println()
 }
 
+// verifClassesSrc: accessor returning, in pre-order of the rule table as it exists at RUN TIME, the data of every
+// character-class matcher (the unicode tables are the ones rangeTable() really returned). Written with reflection so
+// that it does not depend on the shape of the generated node types beyond the name charClassMatcher and its fields.
+const verifClassesSrc = `
+// VerifClass is the run-time content of one character-class matcher of the rule table.
+type VerifClass struct {
+	Val        string
+	Chars      []rune
+	Ranges     []rune
+	Classes    []*unicode.RangeTable
+	IgnoreCase bool
+	Inverted   bool
+}
+
+// VerifClasses walks the rule table g in pre-order.
+func VerifClasses() []VerifClass {
+	var out []VerifClass
+	var walk func(v reflect.Value)
+	walk = func(v reflect.Value) {
+		if !v.CanInterface() && v.CanAddr() {
+			v = reflect.NewAt(v.Type(), unsafe.Pointer(v.UnsafeAddr())).Elem()
+		}
+		switch v.Kind() {
+		case reflect.Interface, reflect.Ptr:
+			if v.IsNil() {
+				return
+			}
+			if v.Kind() == reflect.Ptr {
+				if cm, ok := v.Interface().(*charClassMatcher); ok {
+					out = append(out, VerifClass{Val: cm.val, Chars: cm.chars, Ranges: cm.ranges, Classes: cm.classes, IgnoreCase: cm.ignoreCase, Inverted: cm.inverted})
+					return
+				}
+			}
+			walk(v.Elem())
+		case reflect.Struct:
+			for i := 0; i < v.NumField(); i++ {
+				f := v.Field(i)
+				switch f.Kind() {
+				case reflect.Interface, reflect.Ptr, reflect.Slice, reflect.Struct:
+					walk(f)
+				}
+			}
+		case reflect.Slice:
+			for i := 0; i < v.Len(); i++ {
+				walk(v.Index(i))
+			}
+		}
+	}
+	walk(reflect.ValueOf(g).Elem().FieldByName("rules"))
+	return out
+}
+`
+
 // pureExpr: identifier / selector / parenthesised chains (re-evaluating them has no side effects)
 func pureExpr(e ast.Expr) bool {
 	switch x := e.(type) {
@@ -389,12 +442,16 @@ func instrument(p pkgInfo, overlay map[string]string, stats map[string]int) {
 	// zz_verif.go
 	var sb strings.Builder
 	fmt.Fprintf(&sb, "//go:build verif\n\npackage %s\n\n", p.name)
+	if p.name == "grammar" {
+		sb.WriteString("import (\n\t\"reflect\"\n\t\"unicode\"\n\t\"unsafe\"\n)\n\n")
+	}
 	sb.WriteString("// VerifGlobals returns pointers to every package-level variable.\nfunc VerifGlobals() map[string]any {\n\treturn map[string]any{\n")
 	for _, g := range globals {
 		fmt.Fprintf(&sb, "\t\t%q: &%s,\n", g, g)
 	}
 	sb.WriteString("\t}\n}\n")
 	if p.name == "grammar" {
+		sb.WriteString(verifClassesSrc)
 		sb.WriteString("\n// VerifParse is Parse plus the number of parser steps executed.\nfunc VerifParse(b []byte, opts ...Option) (any, error, uint64) {\n\tp := newParser(\"\", b, opts...)\n\tv, err := p.parse(g)\n\treturn v, err, p.ExprCnt\n}\n")
 	}
 	dst := filepath.Join(*out, p.name+"__zz_verif.go")
